@@ -69,16 +69,19 @@ func (s *subPub) process() {
 	for {
 		select {
 		case info := <-s.subInfoChan:
-			var slice []*subInfo
-			v, ok := s.keyToNotifier.Load(info.key)
-			if !ok {
-				slice = make([]*subInfo, 0, 1)
-			} else {
-				slice = v.([]*subInfo)
-			}
-			slice = append(slice, &info)
-			s.keyToNotifier.Store(info.key, slice)
+			s.addSub(info)
 		case info := <-s.unsubInfoChan:
+			// A subscription is always queued before its unsubscription, but the
+			// select above may pick the unsubscription first. Register the pending
+			// subscriptions so that the removal cannot overtake its own subscription.
+			for pending := true; pending; {
+				select {
+				case sub := <-s.subInfoChan:
+					s.addSub(sub)
+				default:
+					pending = false
+				}
+			}
 			v, ok := s.keyToNotifier.Load(info.key)
 			if !ok {
 				continue
@@ -98,6 +101,18 @@ func (s *subPub) process() {
 			}
 		}
 	}
+}
+
+func (s *subPub) addSub(info subInfo) {
+	var slice []*subInfo
+	v, ok := s.keyToNotifier.Load(info.key)
+	if !ok {
+		slice = make([]*subInfo, 0, 1)
+	} else {
+		slice = v.([]*subInfo)
+	}
+	slice = append(slice, &info)
+	s.keyToNotifier.Store(info.key, slice)
 }
 
 // Publish the message, nameSpace kind param is that you use when you call Subscribe
